@@ -105,6 +105,7 @@ def run(chk):
             b.add(f"symdel2-custom|{label}", lambda: nn.symdel(xs, max_edits=k, seqs2=qs, **kw),
                   {"op": "symdel_lookup", "ref": xs, "qs": qs, **fields} if len(xs) <= 15 else None, sop, meta)
             b.add(f"SymdelDB.lookup-custom|{label}", lambda: nn.SymdelDB(xs, k).lookup(qs, **kw), None, sop, meta)
+            b.add(f"nearest_neighbor2-custom|{label}", lambda: nn.nearest_neighbor(xs, max_edits=k, seqs2=qs, **kw), None, sop, meta)
 
     corner = [["XA", "AY"], ["AC", "A", "ACD", "CD"], ["CAAA", "CDDD", "CADA", "CAAK"], ["A", "AA", "AAA", "AAAA"]]
     for xs in corner:
